@@ -450,6 +450,7 @@ def c06(ctx):
     tlc_must_hold(ctx, "Upload", "Upload_MC.cfg")
     tlc_must_hold(ctx, "Upload", "Upload_MC2.cfg")
     tlc_must_fail(ctx, "Upload", "Upload_Attack_StaleReader.cfg")
+    tlc_must_fail(ctx, "Upload", "Upload_Attack_ReleaseReplay.cfg")   # replay buffer released after a while, Seek(0) still succeeds
     gen = tlc_generate(ctx, "UploadGen", "UploadGen.cfg", "upload_scripts.json")
     alls = json.load(open(gen))["scripts"]
     ctx.extra["scripts_enumerated_by_tlc"] = len(alls)
@@ -547,6 +548,7 @@ def c05(ctx):
     ctx.assumptions = ["'bounded time' = 10 s per chunk (normal latency is milliseconds to 100 ms flush interval)"]
     tlc_must_hold(ctx, "Upload", "Upload_LockStep.cfg")
     tlc_must_fail(ctx, "Upload", "Upload_Attack_BufferAll.cfg")
+    tlc_must_fail(ctx, "Upload", "Upload_Attack_IdleCut.cfg")      # a watchdog that fires while the handler is merely quiet
     tlc_must_hold(ctx, "Upload", "Upload_MC.cfg")
     go_build_repo(ctx, "./agent", "agent")
     go_build_harness(ctx)
@@ -1017,6 +1019,7 @@ def ws_model(ctx):
     tlc_must_fail(ctx, "WsShim", "WsShim_Attack_CloseClosesChan.cfg")
     tlc_must_fail(ctx, "WsShim", "WsShim_Attack_DrainByCount.cfg")         # two polls over-count the backlog: panic once the backend closes
     tlc_must_fail(ctx, "WsShim", "WsShim_Attack_DrainByCount_Live.cfg")    # ... or one of them is never answered
+    tlc_must_fail(ctx, "WsShim", "WsShim_Attack_SweepDone.cfg")            # table swept of done sessions with unpolled messages: not WsShimObs
 
 
 def ws_cases(ctx):
@@ -1256,6 +1259,8 @@ def bridge_run(ctx):
     import random
     tlc_must_hold(ctx, "TcpBridge", "TcpBridge_MCbig.cfg" if ctx.tier == "thorough" else "TcpBridge_MC.cfg")   # incl. the refinement TcpBridge => TcpBridgeObs
     tlc_must_fail(ctx, "TcpBridge", "TcpBridge_Attack_WaitBoth.cfg")
+    tlc_must_fail(ctx, "TcpBridge", "TcpBridge_Attack_ReadDeadline.cfg")   # a read deadline after a half-close ends the other direction early
+    tlc_must_fail(ctx, "TcpBridge", "TcpBridge_Attack_MarkerLost.cfg")     # a CloseWrite marker lost to a stale write deadline: the close never arrives
     gen = tlc_generate(ctx, "TcpBridgeGen", "TcpBridgeGen.cfg", "bridge_domains.json")
     dom = json.load(open(gen))
     rnd = random.Random(ctx.seed)
